@@ -17,11 +17,21 @@ import (
 	"time"
 )
 
-const (
-	VerifDir = "/verif"
-	BuildDir = "/verif/.build"
-	RepoDir  = "/repo"
+// VerifDir is the home of evidence/, replay/, known findings and .build (env VERIF_HOME
+// overrides it so that a development copy of the harness can run beside the registered one).
+var (
+	VerifDir = verifHome()
+	BuildDir = VerifDir + "/.build"
 )
+
+const RepoDir = "/repo"
+
+func verifHome() string {
+	if h := os.Getenv("VERIF_HOME"); h != "" {
+		return h
+	}
+	return "/verif"
+}
 
 type Tier string
 
